@@ -38,6 +38,10 @@ TIERS = {"quick": {1: 2, 2: 2, 3: 2, 4: 1}, "thorough": {1: 3, 2: 3, 3: 3, 4: 2,
 DUP_SIG = "SystemEvent:removal-conflates-identical-duplicate-registrations"
 
 
+class Runaway(BaseException):
+    pass
+
+
 class Boom(Exception):
     pass
 
@@ -119,6 +123,10 @@ class H:
     def trig(self, *a, **kw):
         from twisted.internet import defer
         token = a[0] if a else kw["token"]
+        self.ncalls = getattr(self, "ncalls", 0) + 1
+        if self.ncalls > 60:
+            # runaway firing (only possible when triggers run again and again): unwind the whole execution
+            raise Runaway()
         exp = self.next_expected()
         if exp is not None and exp.token == token:
             r = exp
@@ -233,6 +241,10 @@ class H:
                 self.flags.add("waited-for-deferreds")
         except Boom as e:
             self.flag("SystemEvent:trigger-exception-propagated-to-caller", self.describe())
+        except Runaway:
+            self.refired = False
+            self.flag("SystemEvent:trigger-ran-more-than-once", self.describe())
+            return self
         missing = [r for r in self.regs if r.alive and not r.ran]
         if missing and not self.refired and not any(s.startswith("SystemEvent:trigger-exception") for s, _ in self.bad):
             kind = "after-another-trigger-raised" if self.raised else "although-none-raised"
@@ -262,6 +274,7 @@ def run_shard(shard, tier, seed):
     phases = tuple(PHASES[p] for p in shard[0])
     bound = shard[1]
     st = Stats()
+    nbad = 0
     for ch, h in explore(make_run(phases), bound=bound):
         st.evaluations += 1
         kinds = tuple(r.kind for r in h.regs)
@@ -273,6 +286,13 @@ def run_shard(shard, tier, seed):
         if h.bad:
             for sig, detail in h.bad:
                 st.violation(sig, detail, {"phases": list(shard[0]), "choices": ch.choices})
+            nbad += 1
+            if nbad >= 2000 and not all(sig == DUP_SIG for sig, _ in h.bad):
+                # a broken tree can blow the execution tree up (triggers that run again create new
+                # choice points); everything needed is already recorded
+                st.exhaustive = False
+                st.notes.append("C12: shard cut after 2000 violating executions")
+                break
         elif st.evaluations % 20011 == 1:
             st.sample({"phases": phases, "kinds": kinds, "removals": h.removals, "ran": h.log})
     return st
